@@ -746,3 +746,11 @@ impl BytecodeInterpreter {
         &self.vm
     }
 }
+
+#[cfg(numbat_verif)]
+impl BytecodeInterpreter {
+    /// Number of global bindings (each owns one stack slot at the bottom of the VM stack).
+    pub(crate) fn verif_num_globals(&self) -> usize {
+        self.locals[0].len()
+    }
+}
